@@ -15,7 +15,7 @@ Local Open Scope N_scope.
 
 (* ---- the model with the probed constant abstracted: parse_row is its instance at the constant -------- *)
 Definition rekey_put_with (b : bool) (acc : list (str * str)) (k v : str) : list (str * str) :=
-  if b && is_nil v && ocontains str_eqb acc k then acc else oset str_eqb acc k v.
+  if b && ocontains str_eqb acc k && is_nil v then acc else oset str_eqb acc k v.
 
 Definition rekey_with (b : bool) (cx : option ctxremap) (cells : list (str * str)) : res (list (str * str)) :=
   foldM (fun acc kv => do k <- ctx_h2f cx cells (fst kv); Ok (rekey_put_with b acc k (snd kv))) cells [].
